@@ -169,11 +169,6 @@ def extract_ast(src):
                and isinstance(t[2], bool) for t in mol):
         raise Untranslatable('tagPysamRead: moleculeIdentifiyingTags entries')
     out['mol_tags'] = [list(t) for t in mol]
-    # ---- fqSafe body
-    fn = py2coq.find_function(tree, 'fqSafe')
-    rets = [s for s in fn.body if isinstance(s, ast.Return)]
-    if len(rets) != 1 or ast.unparse(rets[0].value) != "fastqCleanerRegex.sub('', string)":
-        raise Untranslatable('fqSafe: body form')
     return out
 
 
@@ -256,7 +251,8 @@ def regen_codec():
               'Definition mol_tags : list (list Z * (list Z * (bool * bool))) := [%s].'
               % '; '.join('(%s, (%s, (%s, %s)))' % (zstr(t[0]), zstr(t[1] or ''), 'true' if t[1] is not None else 'false',
                                                   'true' if t[2] else 'false') for t in a['mol_tags']))
-    ch.append('(* fastqCleanerRegex %r flags %d: code points that survive fqSafe, as closed ranges *)\n'
+    ch.append('(* code points that survive fqSafe (reflection on the function over all 0x110000 code points; '
+              'fastqCleanerRegex %r flags %d), as closed ranges *)\n'
               'Definition fqsafe_ranges : list (Z * Z) := [%s].'
               % (r['fqsafe_pattern'], r['fqsafe_flags'], '; '.join('(%d, %d)' % (lo, hi) for lo, hi in r['fqsafe_ranges'])))
     ch.append('(* code points c with chr(c).isspace() (what str.strip() removes) *)\n'
@@ -368,7 +364,7 @@ class Prop(fw.PropBase):
         rng = self.rng
         cases = [chr(c) for c in range(0, 300)] + [chr(c) for c in (0x2028, 0x10ffff, 0x3000)]
         cases += [''.join(chr(c) for c in range(33, 127)), '']
-        n = 150 if self.tier == 'quick' else 3000
+        n = 150 if self.tier == 'quick' else 8000
         for _ in range(n):
             cases.append(''.join(chr(rng.randint(33, 126)) for _ in range(rng.randint(1, 20))))
         for _ in range(n // 5):
@@ -378,7 +374,7 @@ class Prop(fw.PropBase):
     def gen_fqsafe(self):
         rng = self.rng
         cases = [chr(c) for c in range(0, 400)] + ['', 'ACGT+TTGA', '@NS500:1', 'a b\tc', 'xéy中z', '\ud800a']
-        n = 200 if self.tier == 'quick' else 4000
+        n = 200 if self.tier == 'quick' else 10000
         pool = SAFE + ' ;:@+.,/|\t\n~^' + 'éßЖ中\U0001F600'
         for _ in range(n):
             cases.append(self.rstr(pool, 0, 24))
@@ -419,7 +415,7 @@ class Prop(fw.PropBase):
         for h in self.HEADERS:
             for parser in (True, False):
                 cases.append({'f': 'raw', 'header': h, 'parser': parser, 'library': 'LIB_a-1', 'reason': None})
-        n = 60 if self.tier == 'quick' else 1500
+        n = 60 if self.tier == 'quick' else 4000
         for _ in range(n):
             h = self.rand_header()
             if rng.random() < 0.15:   # damage it
@@ -436,7 +432,7 @@ class Prop(fw.PropBase):
         rng = self.rng
         keys = [t[0] for t in self.reflected['tags']]
         cases = []
-        n = 150 if self.tier == 'quick' else 3000
+        n = 150 if self.tier == 'quick' else 8000
         for i in range(n):
             ks = rng.sample(keys, rng.randint(1, 14))
             if rng.random() < 0.5:
@@ -467,7 +463,7 @@ class Prop(fw.PropBase):
         rng = self.rng
         info = self.strategy_info
         cases = []
-        per = 3 if self.tier == 'quick' else 40
+        per = 3 if self.tier == 'quick' else 120
         for name, si in sorted(info.items()):
             for rep in range(per):
                 n = 2 if not si['single'] else 1
@@ -500,7 +496,8 @@ class Prop(fw.PropBase):
                     h = self.HEADERS[0]
                 hs = [h, h.replace(' 1:', ' 2:', 1)][:n]
                 lib = rng.choice(['LIB', 'APKS1-P15-1-1_1', self.rstr(SAFE, 1, 40)])
-                c = {'f': 'chain', 'strategy': name, 'parser': rng.random() < 0.8, 'library': lib,
+                nf = len(re.split('[: ]', h.replace('::', '')))
+                c = {'f': 'chain', 'strategy': name, 'parser': rng.random() < (0.85 if nf == 11 else 0.15), 'library': lib,
                      'records': [[hs[i], seqs[i], '+', quals[i]] for i in range(n)]}
                 if rng.random() < 0.3:     # long library names: first header of exactly 248..258 characters
                     c['target_len'] = rng.randint(248, 258)
@@ -530,7 +527,7 @@ class Prop(fw.PropBase):
             'LY:a;NB500:530:HXX:2:2:17:6;BC:GTCATTAG',
         ]
         cases = [{'f': 'digest', 'reads': [[h, []]]} for h in hand]
-        n = 120 if self.tier == 'quick' else 2500
+        n = 120 if self.tier == 'quick' else 8000
         pool = list(real_headers) or [base]
         for _ in range(n):
             h = rng.choice(pool + [base])
@@ -564,7 +561,7 @@ class Prop(fw.PropBase):
                 elif r < 0.4:
                     rs.append(['broken', []])
                 else:
-                    rs.append([rng.choice(pool + [base]), []])
+                    rs.append([rng.choice(pool + [base]), rng.choice([[], [], [['NM', 2], ['MD', '4'], ['AS', 70]]])])
             cases.append({'f': 'digest', 'reads': rs})
         return cases
 
@@ -653,7 +650,7 @@ class Prop(fw.PropBase):
             for r, ir, o in zip(c['reads'], impl['reads'], outs):
                 if r is None:
                     continue
-                pre = sorted([k, 's', v] for k, v in r[1])
+                pre = sorted([k, 'i' if isinstance(v, int) else 's', str(v)] for k, v in r[1])
                 if o[0] == 0 and (ir['name'] != r[0].strip() and ir['name'] != r[0] or ir['tags'] != pre):
                     return 'read should be untouched: %r' % (ir,)
                 if o[0] == 2:
